@@ -247,6 +247,22 @@ def random_behaviours(seed: int, n: int, length: int) -> List[Dict[str, Any]]:
     return out
 
 
+def huge_gap_behaviours(tier: str) -> List[Dict[str, Any]]:
+    """a timer left unticked for more than 2^24 periods (gating inside a stuck handler, timers re-enabled after a long pause), the
+    catching-up tick landing exactly on / just before / just after a period boundary, followed by dense ticks"""
+    out = []
+    combos = [(3, 0, 0), (0, 2, 1)] if tier == "quick" else [(1, 0, 0), (3, 0, 1), (0, 2, 2), (7, 5, 0), (2, 3, 1)]
+    for pm, ps, k in combos:
+        per = pm or ps
+        for delta in (0, -1, 1):
+            c0 = per + 1
+            c1 = per * ((1 << 24) + 2 + k) + delta + (7 % per if per > 1 else 0) * 0
+            acts = [{"ev": "Tick", "c": c0}, {"ev": "Tick", "c": c1}, {"ev": "Tick", "c": c1 + 1}, {"ev": "Tick", "c": c1 + 2},
+                    {"ev": "Tick", "c": c1 + per}, {"ev": "Tick", "c": c1 + 2 * per + 1}]
+            out.append({"en": True, "pm": pm, "ps": ps, "origin": 0, "acts": acts})
+    return out
+
+
 def _snap_job(arg):
     shard_id, scripts = arg
     from checks import c16
@@ -364,6 +380,7 @@ def run(cr: CheckRun) -> None:
     # 3. code -> spec: large periods / large origins, seeded random gaps
     rnd = random_behaviours(cr.seed, 600 if quick else 8000, 60)
     campaign(cr, rnd, "random-large")
+    campaign(cr, huge_gap_behaviours(cr.tier), "huge-gap")
     pyrs_direct(cr, rnd[: (200 if quick else 2000)] + items[:: max(1, len(items) // 500)])
     # 4. machine level, the quantifier's "snapshot-restore points": a machine saved at ANY tick and loaded into a fresh one keeps
     #    the firing cadence (every position of timer-only scripts is a snapshot point; shares the machinery of C16)
